@@ -78,4 +78,12 @@ def run(ctx):
                       f"numbering but hand_type() reports {got}",
                       fn=fn.path, file=fn.file, line=fn.line,
                       construct=f"interval arm covering {idxs[0]}")
-    ctx.assume("the power index of an evaluated hand is its standard class 1..=7462 (decided by C01)")
+    # the category of an evaluated hand = hand_type(index of the hand): the index must be the hand's standard class, which is
+    # C01's matter; its rules are re-evaluated here so that a wrong table slot / hash / flush detection is reported for C07 too
+    from sa.report import PrefixCtx
+    from rules import c01
+    try:
+        c01.run(PrefixCtx(ctx, "C01", "C07"))
+    except Unrecognised as e:
+        ctx.unrecognised("C07." + e.rule.split(".", 1)[-1], e.msg, e.fn, e.line)
+    ctx.assume("seven distinct input cards")
